@@ -689,7 +689,16 @@ def gen_cases(rng, tier):
         for sized in ([T_CODE], [T_CODE, 0], [0, T_CODE], [T_CODE, T_CODE, 0], [1, T_CODE]):
             add(enc(6, 0, gcode + 1, [], [sized], [0]), "sys")
             add(enc(5, 0, gcode + 1, [], [sized], [0]), "sys")
-    total = 380 if tier == "quick" else 5000
+    # repr(transparent) with zero-sized companions: the one data field in every position, 1-aligned and over-aligned,
+    # plain and through the type parameter (Align1 must look at EVERY field, whatever the representation)
+    for z in (2, 20):
+        for w in WIDE_FIELDS + [0, 5]:
+            for form in (0, 1):
+                for fl in ([z, w], [w, z], [z, z, w], [z, w, z]):
+                    add(enc(0, form, 0, [(2, 0)], [fl]), "sys")
+            add(enc(0, 1, w + 1, [(2, 0)], [[z, T_CODE]]), "sys")
+            add(enc(0, 1, w + 1, [(2, 0)], [[T_CODE, z]]), "sys")
+    total = 520 if tier == "quick" else 5000
     guard = 0
     while len(out) < total and guard < total * 20:
         guard += 1
